@@ -28,6 +28,7 @@ func init() {
 			p.W["popall"] = 3
 			p.W["a.fill"], p.W["m.fill"] = 4, 4
 			p.W["copy"], p.W["bulk.map"], p.W["bulk.arr"] = 3, 2, 1 // enumerate copies and batch-built containers too
+			p.W["failstor"] = 3                                     // ... and containers one of whose mutations failed half-way
 			p.DigSpec = func(r *Rng) *DigesterSpec {
 				if r.Chance(0.4) {
 					return nil
